@@ -960,3 +960,259 @@ func lcLengthUnit(info *types.Info, fd *ast.FuncDecl, e ast.Expr, depth int) (st
 	}
 	return "", "shape of " + exprStr(e) + " not understood"
 }
+
+// ---------------------------------------------------------------------------
+// R-lex-filename: every position the lexer hands out names the lexer's file.
+
+func init() {
+	register(&Rule{ID: "R-lex-filename", Floor: 20, Run: ruleLexFilename,
+		Doc: "every errors.Span literal built in package lexer sets Filename to the lexer's own file name (directly, or through a parameter that receives it at every call site), except the span of the placeholder token of the zero kind that accompanies an error; and the span of every error the lexer creates is such a literal (or a local bound to one), never the span of a placeholder token: a token or syntax error without file name cannot be located in the text of its module (rendering looks the text up by file name)"})
+}
+
+func ruleLexFilename(c *Ctx) []Obligation {
+	r := discoverLexRoles(c)
+	info := r.info
+	p := r.pkg
+	var obs []Obligation
+	// the zero token kind (placeholder)
+	var zeroKind *types.Const
+	for _, n := range p.Types.Scope().Names() {
+		if k, ok := p.Types.Scope().Lookup(n).(*types.Const); ok && types.Identical(k.Type(), r.kindT) {
+			if v, ok := constant.Int64Val(constant.ToInt(k.Val())); ok && v == 0 {
+				zeroKind = k
+			}
+		}
+	}
+	// is e the lexer's filename? (self.<fileF>, or a string parameter that gets it at every call site)
+	var isFile func(fd *ast.FuncDecl, e ast.Expr, depth int) (bool, string)
+	callSites := func(fn *types.Func) []*ast.CallExpr {
+		var out []*ast.CallExpr
+		for _, lp := range c.All {
+			for _, f := range lp.Syntax {
+				ast.Inspect(f, func(n ast.Node) bool {
+					if call, ok := n.(*ast.CallExpr); ok && CalleeOf(lp.TypesInfo, call) == fn {
+						out = append(out, call)
+					}
+					return true
+				})
+			}
+		}
+		return out
+	}
+	isFile = func(fd *ast.FuncDecl, e ast.Expr, depth int) (bool, string) {
+		e = ast.Unparen(e)
+		if sel, ok := e.(*ast.SelectorExpr); ok {
+			if fv, ok := info.Uses[sel.Sel].(*types.Var); ok && fv == r.fileF {
+				return true, "the lexer's file name field"
+			}
+		}
+		if id, ok := e.(*ast.Ident); ok && depth < 3 {
+			obj, _ := info.Uses[id].(*types.Var)
+			if obj == nil {
+				return false, "not a variable"
+			}
+			// parameter of fd?
+			idx := -1
+			i := 0
+			for _, f := range fd.Type.Params.List {
+				for _, n := range f.Names {
+					if info.Defs[n] == obj {
+						idx = i
+					}
+					i++
+				}
+			}
+			if idx >= 0 {
+				fn, _ := info.Defs[fd.Name].(*types.Func)
+				sites := callSites(fn)
+				if len(sites) == 0 {
+					return true, "parameter of an exported constructor (the host names the file)"
+				}
+				for _, cs := range sites {
+					// only call sites inside the lexer package are judged (others hand in the host's name)
+					var cfd *ast.FuncDecl
+					for _, d := range AllFuncDecls(p) {
+						if d.Body != nil && cs.Pos() >= d.Body.Pos() && cs.End() <= d.Body.End() {
+							cfd = d
+						}
+					}
+					if cfd == nil || idx >= len(cs.Args) {
+						continue
+					}
+					if ok, _ := isFile(cfd, cs.Args[idx], depth+1); !ok {
+						return false, "argument " + exprStr(cs.Args[idx]) + " at " + c.Pos(cs.Pos())
+					}
+				}
+				return true, "parameter that receives the file name at every call site"
+			}
+		}
+		return false, exprStr(e)
+	}
+	spanLitOK := func(fd *ast.FuncDecl, cl *ast.CompositeLit) (bool, string) {
+		for _, el := range cl.Elts {
+			if kv, ok := el.(*ast.KeyValueExpr); ok {
+				if k, ok := kv.Key.(*ast.Ident); ok && k.Name == "Filename" {
+					return isFile(fd, kv.Value, 0)
+				}
+			}
+		}
+		if len(cl.Elts) == 3 {
+			if _, keyed := cl.Elts[0].(*ast.KeyValueExpr); !keyed {
+				return isFile(fd, cl.Elts[2], 0)
+			}
+		}
+		return false, "no Filename"
+	}
+	isPlaceholderSpan := func(fd *ast.FuncDecl, cl *ast.CompositeLit) bool {
+		// the literal is the span argument of the token constructor called with the zero kind
+		found := false
+		ast.Inspect(fd.Body, func(n ast.Node) bool {
+			call, ok := n.(*ast.CallExpr)
+			if !ok || CalleeOf(info, call) != r.newToken || len(call.Args) != 3 {
+				return true
+			}
+			if ast.Unparen(call.Args[2]) == ast.Expr(cl) {
+				if k := ConstOf(info, call.Args[0]); k != nil && k == zeroKind {
+					found = true
+				}
+			}
+			return true
+		})
+		return found
+	}
+	seen := map[string]int{}
+	placeholderFns := map[*types.Func]bool{} // functions returning a placeholder token
+	for _, fd := range AllFuncDecls(p) {
+		if fd.Body == nil {
+			continue
+		}
+		fname := FuncName(fd)
+		ast.Inspect(fd.Body, func(n ast.Node) bool {
+			cl, ok := n.(*ast.CompositeLit)
+			if !ok {
+				return true
+			}
+			if t := info.TypeOf(cl); t == nil || !types.Identical(t, r.spanT) {
+				return true
+			}
+			key := "lexer." + fname + "|span literal names the file"
+			seen[key]++
+			if seen[key] > 1 {
+				key += fmt.Sprintf("#%d", seen[key])
+			}
+			o := Obligation{Key: key, Pos: c.Pos(cl.Pos()), Nontrivial: true}
+			if isPlaceholderSpan(fd, cl) {
+				o.Status, o.Detail = Info, "span of the placeholder token of kind "+zeroKind.Name()+" (accompanies an error, never positioned)"
+				if fn, ok := info.Defs[fd.Name].(*types.Func); ok {
+					placeholderFns[fn] = true
+				}
+				obs = append(obs, o)
+				return true
+			}
+			if ok, why := spanLitOK(fd, cl); ok {
+				o.Status, o.Detail = Discharged, "Filename is "+why
+			} else {
+				o.Status, o.Detail = Violated, "the span literal does not carry the lexer's file name ("+why+"): the token / error built from it cannot be located in its module's text"
+			}
+			obs = append(obs, o)
+			return true
+		})
+	}
+	// errors: the span argument of every error constructor call in the lexer
+	ep := c.Pkg("homescript/errors")
+	for _, fd := range AllFuncDecls(p) {
+		if fd.Body == nil {
+			continue
+		}
+		fname := FuncName(fd)
+		ast.Inspect(fd.Body, func(n ast.Node) bool {
+			call, ok := n.(*ast.CallExpr)
+			if !ok {
+				return true
+			}
+			fn := CalleeOf(info, call)
+			if fn == nil || fn.Pkg() != ep.Types {
+				return true
+			}
+			sig := fn.Type().(*types.Signature)
+			idx := -1
+			for i := 0; i < sig.Params().Len(); i++ {
+				if types.Identical(sig.Params().At(i).Type(), r.spanT) {
+					idx = i
+				}
+			}
+			if idx < 0 || idx >= len(call.Args) {
+				return true
+			}
+			key := "lexer." + fname + "|error span is built for the error"
+			seen[key]++
+			if seen[key] > 1 {
+				key += fmt.Sprintf("#%d", seen[key])
+			}
+			o := Obligation{Key: key, Pos: c.Pos(call.Pos()), Nontrivial: true}
+			arg := ast.Unparen(call.Args[idx])
+			switch x := arg.(type) {
+			case *ast.CompositeLit:
+				o.Status, o.Detail = Discharged, "span literal (judged above)"
+			case *ast.Ident:
+				o.Status, o.Detail = Discharged, "local / parameter "+x.Name
+				// a local bound to a token's span?
+				if v, ok := info.Uses[x].(*types.Var); ok {
+					ast.Inspect(fd.Body, func(m ast.Node) bool {
+						if as, ok := m.(*ast.AssignStmt); ok {
+							for i, l := range as.Lhs {
+								if id, ok := l.(*ast.Ident); ok && (info.Defs[id] == v || info.Uses[id] == v) && i < len(as.Rhs) {
+									if sel, ok := ast.Unparen(as.Rhs[i]).(*ast.SelectorExpr); ok && recvNamed(info.TypeOf(sel.X)) == r.tokenT {
+										o.Status, o.Detail = Undecided, "the error span is copied from a token ("+exprStr(as.Rhs[i])+"): provenance of that token not decided"
+									}
+								}
+							}
+						}
+						return true
+					})
+				}
+			case *ast.SelectorExpr:
+				if recvNamed(info.TypeOf(x.X)) == r.tokenT {
+					// span of a token: which token?
+					o.Status, o.Detail = Undecided, "the error span is the span of the token "+exprStr(x.X)
+					if id, ok := ast.Unparen(x.X).(*ast.Ident); ok {
+						if v, ok := info.Uses[id].(*types.Var); ok {
+							ast.Inspect(fd.Body, func(m ast.Node) bool {
+								if as, ok := m.(*ast.AssignStmt); ok {
+									for i, l := range as.Lhs {
+										if lid, ok := l.(*ast.Ident); ok && (info.Defs[lid] == v || info.Uses[lid] == v) && i < len(as.Rhs) {
+											if cc, ok := ast.Unparen(as.Rhs[i]).(*ast.CallExpr); ok {
+												if g := CalleeOf(info, cc); g != nil && placeholderFns[g] {
+													o.Status, o.Detail = Violated, "the error's span is taken from the placeholder token built by "+g.Name()+", whose span has no file name"
+												}
+											}
+										}
+									}
+								}
+								return true
+							})
+						}
+					}
+				} else {
+					o.Status, o.Detail = Discharged, "span held in "+exprStr(x)
+				}
+			case *ast.CallExpr:
+				// Location.Until(end, filename)
+				if g := CalleeOf(info, x); g != nil && g == r.until && len(x.Args) == 2 {
+					if ok, why := isFile(fd, x.Args[1], 0); ok {
+						o.Status, o.Detail = Discharged, "span built by Until with "+why
+					} else {
+						o.Status, o.Detail = Violated, "span built by Until without the lexer's file name ("+why+")"
+					}
+				} else {
+					o.Status, o.Detail = Undecided, "span argument "+exprStr(arg)+" not understood"
+				}
+			default:
+				o.Status, o.Detail = Undecided, "span argument "+exprStr(arg)+" not understood"
+			}
+			obs = append(obs, o)
+			return true
+		})
+	}
+	return obs
+}
